@@ -124,6 +124,20 @@ func CheckCapacityH(w *core.Worker, p *ParserDef, ample, small Cfg, buf []byte, 
 		pan, _, _ := core.Guard(func() {
 			A.Call(pre, 0)
 			S.Call(pre, 0)
+			ma, oka := A.(*msgObj)
+			ms, oks := S.(*msgObj)
+			if oka && oks && rk == rkResetInit && len(pre) > 3 {
+				// the caller cycles through its arrays: own arrays -> built-in arrays -> own arrays again
+				ha, ca := ma.m.HL.Hdrs, ma.m.PV.Contacts.Vals
+				hs, cs := ms.m.HL.Hdrs, ms.m.PV.Contacts.Vals
+				ma.m.Init(nil, nil, nil)
+				ms.m.Init(nil, nil, nil)
+				A.Call(pre[:len(pre)/2], 0)
+				S.Call(pre[:len(pre)/2], 0)
+				ma.m.Init(nil, ha, ca)
+				ms.m.Init(nil, hs, cs)
+				return
+			}
 			doReset(A, rk, ample)
 			doReset(S, rk, small)
 		})
@@ -318,7 +332,14 @@ func RunC13(r *core.Run) {
 			if flags&sipsp.POptInputEndF != 0 {
 				s.cuts = append(s.cuts[:0], len(in)) // end-of-input mode: one call sees everything
 			}
-			j, o := CheckCapacity(w, p, a, small, in, s.cuts)
+			var pre []byte
+			if pc > 0 && rr.Intn(3) == 0 {
+				// both lists were used before: another list abandoned somewhere, then Reset()
+				ol := gen.ParamList(rr, gen.PLOptsFor(flags&^sipsp.POptInputEndF, rr)).Raw
+				pre = ol[:rr.Intn(len(ol)+1)]
+				w.Inc("cases_with_history")
+			}
+			j, o := CheckCapacityH(w, p, a, small, in, s.cuts, pre, rr.Intn(rkCount))
 			anyJ = anyJ || j
 			ovf = ovf || o
 		}
